@@ -75,6 +75,19 @@ one of them: the quantification over all admissible streams of the layer (`rende
 restricted to the layer); that quantifier is covered only by the correspondence check, where the
 driver evaluates `loadRef (render s) = ok s.trees` for every generated stream. -/
 
+/-- Layer 2, partial — proved for ALL inputs of this shape: a bare document whose root is a block
+sequence (`- item` lines at column 0, any number ≥ 1 of entries, any number of spaces after `-`)
+whose items are arbitrary layer-1 nodes (flow collections of any depth, double-quoted strings,
+null/bool spellings, decimal ints).  MISSING for the full layer: block mappings, nested block
+collections at deeper indentation, compact forms (`- - x`, `- k: v`), plain and single-quoted
+scalars and keys, non-decimal int spellings. -/
+theorem render_load_partial_block_sequence (m : Meta) (x : PNode) (r : PItems) (st : Nat)
+    (h : (PItems.cons m x r).flat1 = true) :
+    loadRef (render (seqStream (.cons m x r) st)) = .ok [.seq (PItems.cons m x r).trees] := by
+  rw [render_load_bytes]; exact loadChars_blockSeq m x r st h
+
+example : (PItems.cons { gap := 1 } exL1 (.cons {} (.int 3 0) .nil)).flat1 = true := by decide
+
 /-- Layer 2 (block collections with plain / quoted scalars) — finite family only. -/
 theorem render_load_partial_block : familyBlock.all loadsBack = true := by decide +kernel
 
